@@ -203,6 +203,81 @@ class ReusedVerifiers:
 REUSED = ReusedVerifiers()
 
 
+def edited_in_place(run, r, t, checkset):
+    """One long-lived tree object: verified (and looked up by name) once, then edited in place WITHOUT changing the
+    number of its declarations - a struct renamed, a field widened, the struct list replaced by an equal-length
+    one - and verified again by a brand-new verifier.  The verdict on the edited object must be the verdict of an
+    identical, freshly built tree (nothing about the tree's earlier contents may be remembered)."""
+    if not t["structs"]:
+        return
+    try:
+        fcp = build(t)
+        make_verifier(checkset).verify(fcp)
+        for s in t["structs"]:
+            fcp.get_struct(s["name"])
+        for e in t["enums"]:
+            fcp.get_enum(e["name"])
+    except Exception:
+        return
+    t2 = copy.deepcopy(t)
+
+    def leaf(ty):
+        while ty[0] in ("arr", "dyn", "opt"):
+            ty = ty[1]
+        return ty
+
+    # names that field types refer to keep their names: a dangling field type is the front end's business (C08),
+    # not a tree the verifier's specification speaks about
+    used = {leaf(f["type"])[1] for s in t["structs"] for f in s["fields"] if leaf(f["type"])[0] in ("struct", "enum")}
+    free = [j for j, s in enumerate(t2["structs"]) if s["name"] not in used]
+    if not free:
+        return
+    k = r.choice(free)
+    edit = r.choice(["rename-struct", "rename-struct-to-bound-name", "widen-field", "replace-struct-list", "rename-enum"])
+    try:
+        if edit == "rename-struct":
+            new = "Zz" + t2["structs"][k]["name"]
+            t2["structs"][k]["name"] = new
+            fcp.structs[k].name = new
+        elif edit == "rename-struct-to-bound-name":
+            # the struct a binding was missing appears under the name the binding asks for
+            wanted = [i["type"] for i in t2["impls"] if i["type"] not in [s["name"] for s in t2["structs"]] + [e["name"] for e in t2["enums"]]]
+            if not wanted:
+                return
+            t2["structs"][k]["name"] = wanted[0]
+            fcp.structs[k].name = wanted[0]
+        elif edit == "widen-field":
+            j = r.randrange(len(t2["structs"][k]["fields"]))
+            t2["structs"][k]["fields"][j]["type"] = ("u", r.choice([1, 40, 64]))
+            fcp.structs[k].fields[j].type = mk_type(t2["structs"][k]["fields"][j]["type"])
+        elif edit == "replace-struct-list":
+            new = "Yy" + t2["structs"][k]["name"]
+            t2["structs"][k]["name"] = new
+            fcp.structs = build(t2).structs
+        else:
+            if not t2["enums"] or t2["enums"][0]["name"] in used:
+                return
+            t2["enums"][0]["name"] = "Zz" + t2["enums"][0]["name"]
+            fcp.enums[0].name = t2["enums"][0]["name"]
+    except Exception:
+        return  # the node classes do not allow this edit: nothing to judge
+    case = {"tree_before": t, "edit": edit, "tree_after": t2, "checkset": checkset}
+    fresh = real_verdict(run, t2, checkset, case)
+    if fresh is None:
+        return
+    try:
+        res = make_verifier(checkset).verify(fcp)
+        got = res.is_ok() if type(res).__name__ in ("Ok", "Err") else None
+    except Exception as e:
+        got = "raised %s" % type(e).__name__
+    run.count("edited_in_place_verdicts")
+    run.count("edited_in_place/" + edit)
+    if got != fresh:
+        run.violation("a tree object edited in place (%s) is judged %s, an identical freshly built tree %s (check set %s)" % (edit, got, "Ok" if fresh else "Err", checkset), case)
+        return
+    run.case(sig="edited|%s|%s|%s" % (edit, checkset, "ok" if fresh else "err"))
+
+
 def aliased(r, t):
     """A copy of tree description t in which one declaration is listed twice; build() makes the two
     entries the same node object.  None when t has nothing to duplicate."""
@@ -482,7 +557,7 @@ def plugin_trees(r):
     out.append((T([can("Pa", "Pa", a), can("Pk", "Pk", b, proto="uart")], enums=[ev]), "noncan-binding-to-an-enum-name"))
     # sizes 57..72 with the excess in different places
     total = r.randint(57, 72)
-    where = r.choice(["scalar", "array", "enum", "nested", "two-scalars", "array-of-structs"])
+    where = r.choice(["scalar", "array", "enum", "nested", "two-scalars", "array-of-structs", "repeated-struct"])
     hi = r.choice([0, 1, 5, 200, 300])
     # (hi == 0: an enum whose only enumerator is 0 still occupies one bit)
     en = {"name": "Pe", "values": [("lo", 0), ("hi", hi)] if hi else [("lo", 0)]}
@@ -519,6 +594,22 @@ def plugin_trees(r):
                 fields.append({"name": "r2", "id": 2, "type": ("u", rest - 64)})
         big = {"name": "Pbig", "fields": fields}
         extra, enums = [inner, big], []
+    elif where == "repeated-struct":
+        # one struct type reached several times inside one message - as two sibling fields, through another struct,
+        # and as array element - which is no cycle: the message has the size of its parts
+        w = r.randint(3, 9)
+        a = r.randint(1, w - 1)
+        wheel = {"name": "Pwh", "fields": [{"name": "p", "id": 0, "type": ("u", a)}, {"name": "q", "id": 1, "type": ("i", w - a)}]}
+        axle = {"name": "Pax", "fields": [{"name": "l", "id": 0, "type": ("struct", "Pwh")}, {"name": "r", "id": 1, "type": ("struct", "Pwh")}]}
+        fields = [{"name": "spare", "id": 0, "type": ("struct", "Pwh")}, {"name": "front", "id": 1, "type": ("struct", "Pax")},
+                  {"name": "rear", "id": 2, "type": ("struct", "Pax")}, {"name": "more", "id": 3, "type": ("arr", ("struct", "Pwh"), 2)}]
+        rest = total - 7 * w
+        if rest > 0:
+            fields.append({"name": "r", "id": 4, "type": ("u", min(rest, 64))})
+        r.shuffle(fields)
+        big = {"name": "Pbig", "fields": fields}
+        extra, enums = [wheel, axle, big], []
+        total = max(total, 7 * w)
     else:
         inner = {"name": "Pin", "fields": [{"name": "p", "id": 0, "type": ("u", 20)}, {"name": "q", "id": 1, "type": ("i", 13)}]}
         big = {"name": "Pbig", "fields": [{"name": "n", "id": 0, "type": ("struct", "Pin")}, {"name": "a", "id": 1, "type": ("u", total - 33)}]}
@@ -585,13 +676,14 @@ def run(run):
             for cs in ("general", "dbc", "can_c"):
                 judge(run, t, cs, "plugin/" + tag, nperm=2, rng=r, sample=(i == 0 and cs != "general" and "size" in tag))
             run.count("plugin/" + tag.split("-size-")[0] if "size" not in tag else "plugin/can-size")
+            edited_in_place(run, run.rng("edit", i, tag), t, ("general", "dbc", "can_c")[(i + len(tag)) % 3])
     reach.stop()
     run.extra["reach"] = {k.replace("make_general_verifier.<locals>.", ""): v for k, v in reach.summary(60).items() if "check_" in k or k.startswith("Verifier.")}
     run.exhaustive = None
 
 
 def conclude(run):
-    run.require("aliased_node_trees", "reused_verifier_verdicts", "verify_calls", "verdicts_agree", "expected_ok", "expected_err", "permutations_agree", "dispatch_probes")
+    run.require("aliased_node_trees", "edited_in_place_verdicts", "reused_verifier_verdicts", "verify_calls", "verdicts_agree", "expected_ok", "expected_err", "permutations_agree", "dispatch_probes")
     for rule in RULES:
         if run.counters.get("injected/" + rule, 0) == 0:
             run.inconclusive_because("rule '%s' was never injected" % rule)
